@@ -29,6 +29,21 @@ type c19Val struct {
 	VSS uint8 `json:"vss_signal,omitempty"`
 }
 
+// c19VSSText is the ADI entry of a stream-switch MID: two ordinary signal ids and the edge forms of
+// the marker (bare, empty id, marker not at the start).
+func c19VSSText(k uint8) string {
+	switch k {
+	case 1, 2:
+		return fmt.Sprintf("BLACKOUT:sig%d", k)
+	case 3:
+		return "BLACKOUT"
+	case 4:
+		return "BLACKOUT:"
+	default:
+		return "SIGNAL:x/BLACKOUT"
+	}
+}
+
 // mkDescriptor builds a descriptor through the public creation API, inside a time_signal signal.
 func mkDescriptor(v c19Val) scte35.SegmentationDescriptor {
 	sig := scte35.CreateSCTE35()
@@ -55,7 +70,7 @@ func mkDescriptor(v c19Val) scte35.SegmentationDescriptor {
 		d.SetUPIDType(scte35.SegUPIDMID)
 		a, b := scte35.CreateUPID(), scte35.CreateUPID()
 		a.SetUPIDType(scte35.SegUPIDADI)
-		a.SetUPID([]byte(fmt.Sprintf("BLACKOUT:sig%d", v.VSS)))
+		a.SetUPID([]byte(c19VSSText(v.VSS)))
 		b.SetUPIDType(scte35.SegUPADSINFO)
 		b.SetUPID([]byte("comcast:linear:licenserotation"))
 		d.SetMID([]scte35.UPID{a, b})
